@@ -331,3 +331,25 @@ def regRun (k : Nat) : List Op → List Out → Option Rec → Option Rec
   | op :: ops, o :: os, cur => regRun k ops os (regStep k cur op o)
   | _, _, cur => cur
 end Foyer
+
+namespace Foyer
+section
+variable {σ : Type} (P : Policy σ) (cfg : Cfg)
+
+/-- Re-entrant semantics (C16): run `op` — the critical section — and then, *after the lock is
+released*, deliver every leave notification in order; a listener may itself issue operations on the
+same cache (`cb reason record`), which run as ordinary steps, depth-first, before the next
+notification is delivered.  `fuel` bounds the nesting depth. -/
+def Cache.stepCb (cb : Reason → Rec → List Op) : Nat → Cache σ → Op → Cache σ × List Out
+  | 0, c, op =>
+    let r := Cache.step P cfg c op
+    (r.1, [r.2])
+  | fuel + 1, c, op =>
+    let r := Cache.step P cfg c op
+    let nested := r.2.leaves.foldl (fun (acc : Cache σ × List Out) (ev : Reason × Rec) =>
+      (cb ev.1 ev.2).foldl (fun (acc2 : Cache σ × List Out) op' =>
+        let r' := Cache.stepCb cb fuel acc2.1 op'
+        (r'.1, acc2.2 ++ r'.2)) acc) (r.1, [])
+    (nested.1, r.2 :: nested.2)
+end
+end Foyer
